@@ -34,7 +34,7 @@ EntVariants ==
      { [EntNom EXCEPT !.signers = s] : s \in { <<"A1">>, <<"A2", "A4">>, <<>>, <<"A1", "BAD">>, <<"A1", "">>, <<"A1", "A1">>, <<"A1", "A2", "A4">> } }
   \cup { [EntNom EXCEPT !.min = n] : n \in {0, 1, 2, 3, Big63, Big64} }
   \cup { [EntNom EXCEPT !.limit = n] : n \in {0, 1, Big64} }
-  \cup { [EntNom EXCEPT !.denom = d] : d \in {"", " ", "1x"} }
+  \cup { [EntNom EXCEPT !.denom = d] : d \in {"", " ", "1x", "other"} }
   \cup { [signers |-> <<"A4">>, min |-> 1, limit |-> 1, denom |-> "nund"] }
 RegNom == [feeReg |-> 6, feeRec |-> 2, feePur |-> 3, denom |-> "nund", def |-> 1, max |-> 3]
 RegVariants ==
@@ -60,18 +60,27 @@ Probes(s) == <<
 
 ScriptTail == <<EndEv, ComEv, [a |-> "BeginBlock", dt |-> 2000], EndEv, ComEv, [a |-> "BeginBlock", dt |-> 1000]>> \o Probes(st) \o
         <<EndEv, ComEv, [a |-> "BeginBlock", dt |-> 3000], EndEv, ComEv, [a |-> "BeginBlock", dt |-> 1000], EndEv, ComEv>>
-Choices == { GovTxFor(st, u[1], u[2]) : u \in Updates }
+\* a parameter change that takes effect between an order's acceptance (BeginBlock of block n) and its minting
+\* (BeginBlock of block n+1): submitted first, the deciding vote one block later
+BetweenTail == <<EndEv, ComEv, [a |-> "BeginBlock", dt |-> 1000],
+                 Tx(<<[t |-> "Decide", signer |-> "A1", id |-> 1, d |-> "accept"]>>), EndEv, ComEv,
+                 [a |-> "BeginBlock", dt |-> 1000], EndEv, ComEv, [a |-> "BeginBlock", dt |-> 1000], EndEv, ComEv,
+                 [a |-> "BeginBlock", dt |-> 1000], EndEv, ComEv>>
+BetweenVariants == { [EntNom EXCEPT !.min = 1, !.denom = d] : d \in {"nund", "other"} }
+                   \cup { [signers |-> <<"A4">>, min |-> 1, limit |-> 1, denom |-> "nund"], [signers |-> <<"A1", "A2", "A4">>, min |-> 3, limit |-> 9, denom |-> "nund"] }
+Choices == { [ev |-> GovTxFor(st, u[1], u[2]), tail |-> ScriptTail] : u \in Updates }
+           \cup { [ev |-> GovTxFor(st, "ent", p), tail |-> BetweenTail] : p \in BetweenVariants }
 Init == /\ st = StateOf(Gen) /\ hist = <<[a |-> "InitChain", g |-> Gen]>> /\ todo = Prefix /\ phase = "prefix" /\ nTx = 0
-Run == /\ todo # <<>>
+Run == /\ todo # <<>> /\ ~st.halted
        /\ st' = Step(st, Head(todo)).st /\ hist' = Append(hist, Head(todo)) /\ todo' = Tail(todo)
        /\ UNCHANGED <<phase, nTx>>
 Choose == /\ todo = <<>> /\ phase = "prefix"
-          /\ \E ev \in Choices :
-               st' = Step(st, ev).st /\ hist' = Append(hist, ev) /\ todo' = ScriptTail /\ phase' = "tail" /\ nTx' = 1
-Done == todo = <<>> /\ phase = "tail" /\ phase' = "done" /\ UNCHANGED <<st, hist, nTx, todo>>
+          /\ \E c \in Choices :
+               st' = Step(st, c.ev).st /\ hist' = Append(hist, c.ev) /\ todo' = c.tail /\ phase' = "tail" /\ nTx' = 1
+Done == (todo = <<>> \/ st.halted) /\ phase = "tail" /\ phase' = "done" /\ UNCHANGED <<st, hist, nTx, todo>>
 Next == Run \/ Choose \/ Done
 Spec == Init /\ [][Next]_vars
 
-Inv == StoredParamsValid(st) /\ C03State(st) /\ C04State(st) /\ C08State(st) /\ C10State(st) /\ NotHalted(st)
+Inv == StoredParamsValid(st) /\ C03State(st) /\ C08State(st) /\ C10State(st) /\ (NotHalted(st) \/ EntDenomChanged(st))
 Emit == phase = "done" => PrintT(<<"TRACE", ToJson(hist)>>)
 =============================================================================
